@@ -34,6 +34,17 @@ def gen_e3(rng):
         return (rng.choice([1, P + 1]), rng.choice([0, P]), rng.choice([0, P]))
     if k == 2:
         return (1, gen_word(rng), gen_word(rng))
+    if k in (3, 4):
+        # coefficients tied by small linear relations (a1 = -a2, a0 = a1, a0 + a1 + a2 = 0, ...): reaches special-case
+        # branches guarded by a relation between coefficients, which independent random coefficients never satisfy
+        u, v = gen_word(rng) % P, gen_word(rng) % P
+        pool = [0, 1, P - 1, u, (P - u) % P, v, (P - v) % P, (u + v) % P, (P - (u + v) % P) % P, (u + 1) % P, (2 * u) % P]
+        e = [rng.choice(pool) for _ in range(3)]
+        if rng.below(2):
+            j = rng.below(3)
+            e[(j + 1) % 3] = (P - e[j]) % P
+        # any representation
+        return tuple(x + P if (x < (1 << 64) - P and rng.below(4) == 0) else x for x in e)
     return (gen_word(rng), gen_word(rng), gen_word(rng))
 
 
